@@ -61,6 +61,32 @@ def make_validator(case, schema=True):
     that in-place expansion never leaks between runs"""
     cls = cls_of(case)
     cfg = copy.deepcopy(case.get('cfg', {}))
+    if case.get('bound_registries'):
+        # the definitions the schema refers to live in registries bound to this validator; the module-level
+        # registries are empty, or hold *other* (empty) definitions under the same names (`decoys`)
+        from cerberus.schema import RulesSetRegistry, SchemaRegistry
+        rr, sr = RulesSetRegistry(), SchemaRegistry()
+        for k, v in case.get('rules_sets', {}).items():
+            rr.add(k, copy.deepcopy(v))
+        for k, v in case.get('schemas', {}).items():
+            sr.add(k, copy.deepcopy(v))
+        schema_registry.clear()
+        rules_set_registry.clear()
+        if case.get('decoys'):
+            for k, v in case.get('rules_sets', {}).items():
+                # the same definition with another `type`: an error that comes from here names a constraint
+                # that the validator's own definition does not have
+                d = dict(copy.deepcopy(v)) if isinstance(v, dict) else {}
+                d['type'] = 'string' if d.get('type') == 'boolean' else 'boolean'
+                for r in ('schema', 'items', 'keysrules', 'valuesrules'):
+                    d.pop(r, None)
+                try:
+                    rules_set_registry.add(k, d)
+                except Exception:
+                    rules_set_registry.add(k, {})
+            for k in case.get('schemas', {}):
+                schema_registry.add(k, {})
+        cfg['rules_set_registry'], cfg['schema_registry'] = rr, sr
     if schema:
         return cls(copy.deepcopy(case['schema']), **cfg)
     return cls(**cfg)
